@@ -6,6 +6,7 @@ from classy_blocks.construct.operations.operation import Operation
 from classy_blocks.items.edges.edge import Edge
 from classy_blocks.items.edges.factory import factory
 from classy_blocks.items.vertex import Vertex
+from classy_blocks.util.tools import edge_map
 
 
 class EdgeList:
@@ -43,8 +44,13 @@ class EdgeList:
         edges = []
 
         for data in data_frame.get_all_beams():
-            corner_1 = data[0]
-            corner_2 = data[1]
+            # the frame is symmetric and lists each beam with the lower corner first
+            # but edge data is specified for a directed pair of corners
+            # (i -> i+1 along a face, including 3 -> 0, and bottom -> top on the sides);
+            # direction-dependent data (spline points, angle) must be created in that direction
+            location = edge_map[data[0]][data[1]]
+            corner_1 = location.corner_1
+            corner_2 = location.corner_2
 
             vertex_1 = vertices[corner_1]
             vertex_2 = vertices[corner_2]
